@@ -99,22 +99,23 @@ type DStream struct {
 }
 
 type Conn struct {
-	id        string // tag.nK#c
-	tag       string // agent tag, e.g. m1d
-	member    int
-	role      string // a (kv), m (meta), d (dcp)
-	node      int
-	rwc       io.Closer
-	wmu       sync.Mutex
-	wr        *memd.Conn
-	bucket    *Bucket
-	closed    bool
-	queue     []*Req
-	streams   map[int]*DStream
-	stalled   bool
-	dcpName   string
-	zombie    bool
-	silentFor bool // stays silent through the quiesce phase (C20 'never')
+	id         string // tag.nK#c
+	tag        string // agent tag, e.g. m1d
+	member     int
+	role       string // a (kv), m (meta), d (dcp)
+	node       int
+	rwc        io.Closer
+	wmu        sync.Mutex
+	wr         *memd.Conn
+	bucket     *Bucket
+	closed     bool
+	queue      []*Req
+	streams    map[int]*DStream
+	stalled    bool
+	dcpName    string
+	zombie     bool
+	silentFor  bool // stays silent through the quiesce phase (C20 'never')
+	cfgRevSent int64
 }
 
 type Cluster struct {
@@ -132,7 +133,8 @@ type Cluster struct {
 	silentNodes    map[int]bool
 	curArr         int
 	mgmtMode       string
-	zombieNotFound bool // see handle(): reads of crashed members are answered 'not found'
+	zombieNotFound bool      // see handle(): reads of crashed members are answered 'not found'
+	cfgSubs        []*cfgSub // open streaming-config responses (http.go)
 	mgmtHeld       int
 	mgmtRelease    chan struct{}
 }
@@ -399,6 +401,11 @@ func (c *Cluster) sessionControl(cn *Conn, req *memd.Packet) *memd.Packet {
 			res.Status = memd.StatusNoBucket
 		} else {
 			res.Value = c.configJSON(cn.tag, cn.bucket)
+			if cn.bucket.rev != cn.cfgRevSent {
+				// which revision of the cluster map each agent has been given: the map "listed" for that client
+				cn.cfgRevSent = cn.bucket.rev
+				c.w.jl(&journal.Ev{K: journal.KNote, M: cn.member, Vb: -1, S: "config-sent", S2: cn.role, I: cn.bucket.rev, ID: cn.id})
+			}
 		}
 	default:
 		res.Status = memd.StatusUnknownCommand
